@@ -2337,26 +2337,41 @@ class SequenceAndSetBase(base.ConstructedAsn1Type):
                 not isinstance(other, (list, tuple))):
             return mine == other
 
-        if len(mine) != len(other):
-            return False
+        # slots are filled on demand: trailing ones may be missing, and an
+        # unset DEFAULT component stands for its default value
+        namedTypes = self.componentType
 
-        # an unset component differs from any set one
-        for myComponent, otherComponent in zip(mine, other):
-            myUnset = (myComponent is noValue or
-                       isinstance(myComponent, base.Asn1Item) and
-                       not myComponent.isValue)
-            otherUnset = (otherComponent is noValue or
-                          isinstance(otherComponent, base.Asn1Item) and
-                          not otherComponent.isValue)
+        for idx in range(max(len(mine), len(other))):
+            myComponent = self.__settledComponent(mine, idx, namedTypes)
+            otherComponent = self.__settledComponent(other, idx, namedTypes)
 
-            if myUnset or otherUnset:
-                if myUnset != otherUnset:
+            # an unset component differs from any set one
+            if myComponent is noValue or otherComponent is noValue:
+                if myComponent is not otherComponent:
                     return False
 
             elif myComponent != otherComponent:
                 return False
 
         return True
+
+    @staticmethod
+    def __settledComponent(components, idx, namedTypes):
+        if idx < len(components):
+            component = components[idx]
+        else:
+            component = noValue
+
+        if (component is not noValue and
+                isinstance(component, base.Asn1Item) and
+                not component.isValue):
+            component = noValue
+
+        if (component is noValue and namedTypes and
+                idx < len(namedTypes) and namedTypes[idx].isDefaulted):
+            component = namedTypes[idx].asn1Object
+
+        return component
 
     def __ne__(self, other):
         return not self == other
